@@ -44,8 +44,9 @@ CLAIMED = {
         "verdict, exit value and the descriptor table reported by each program must be identical, and nothing may hang.  Also: three users of ONE environment opening and reading back their own file with Pings in between; a freshly written executable run through its descriptor next to a launch that overlapped its writing.",
    note="Partial: the tie samples schedules, the theorems quantify over all interleavings of the model's atomic steps; that these steps are "
         "atomic where the code is (each library descriptor born close-on-exec, clone inside the write-locked section) is the trusted link, "
-        "exercised by the background goroutines.  The model has no executable comparison with the code beyond these runs (level: theorem "
-        "about the protocol + differential runs).  Trusted: Coq kernel.",
+        "exercised by the background goroutines.  The fork-lock model has no executable comparison with the code beyond these runs (level: theorem "
+        "about the protocol + differential runs); the descriptor-event model of Start is compared with the traced calls of 19 real starts on every run "
+        "(trusted there: strace's report of the first thread, and the table of the check that names each start's configuration and outcome).  Trusted: Coq kernel.",
    technique="Coq proof of lock-protocol invariants over all interleavings of unboundedly many goroutines + alone-versus-concurrent differential runs",
    design="§5 C17"),
  "C20": dict(
